@@ -1,6 +1,7 @@
 // lbzsim core: fibers, seeded scheduler, kernel model and the libc/pthread shims
 // that the (objcopy-redirected) lbzip2 objects call.  See DESIGN.md section 2.
 #define _GNU_SOURCE 1
+#include <valgrind/memcheck.h>   // client requests: no-ops (a few instructions) unless the process runs under valgrind ("vg" variant)
 #include "sim.h"
 
 #include <elf.h>
@@ -445,7 +446,7 @@ static void schedule_point(int op, int64_t a) {
   // the I/O calls actually made, so that fragmentation cannot fake a livelock while a spinning
   // scheduler (steps without I/O) still exhausts it
   uint64_t budget = (s.plan->step_budget ? s.plan->step_budget : 5000000) + 100ull * (s.call_cnt[C_READ][R_ANY] + s.call_cnt[C_WRITE][R_ANY]);
-  if (op == OP_PREEMPT) s.preempt_steps++;     // preemption points inside unsynchronised code are not scheduler progress
+  if (op == OP_PREEMPT) { s.preempt_steps++; R.inregion_points++; }     // preemption points inside unsynchronised code are not scheduler progress
   if (R.steps - s.preempt_steps > budget) end_run(X_BUDGET, 0);
 
   const Sched &sc = s.plan->sched;
@@ -512,7 +513,7 @@ static void schedule_point(int op, int64_t a) {
     pick = pick_policy(pol, param, en, n, cur_en ? me : -1);
   }
   rec_choice(idx, (uint32_t)pick, (uint32_t)dflt);
-  if (cur_en && pick != me) R.preemptions++;
+  if (cur_en && pick != me) { R.preemptions++; if (op == OP_PREEMPT) R.inregion_preemptions++; }
   (void)op; (void)a;
   if (pick != me) {
     switch_to(me, pick, me >= 0 && s.F[me].state == ST_DONE);
@@ -633,8 +634,10 @@ static int new_fiber(void *(*fn)(void *), void *arg, uint64_t mask, int cls) {
     char *st = (char *)mmap(0, STK, PROT_READ | PROT_WRITE, MAP_PRIVATE | MAP_ANONYMOUS | MAP_NORESERVE, -1, 0);
     if (st == MAP_FAILED) { perror("mmap stack"); _exit(3); }
     g_stacks.push_back(st);
+    (void)VALGRIND_STACK_REGISTER(st, st + STK);
   }
   f.stack = g_stacks[id];
+  if (RUNNING_ON_VALGRIND) (void)VALGRIND_MAKE_MEM_UNDEFINED(f.stack, STK);     // a recycled stack still holds the previous run's values
 #ifdef SIM_ASAN
   __asan_unpoison_memory_region(f.stack, STK);
 #endif
@@ -973,6 +976,7 @@ void *simw_malloc(size_t n) { SHIM;
   char *p = (char *)malloc(n + CANARY);
   if (!p) return nullptr;
   memset(p, s.plan->junk, n);
+  (void)VALGRIND_MAKE_MEM_UNDEFINED(p, n);     // junk for the native variants, "undefined" for memcheck
 #if CANARY
   memcpy(p + n, canary_bytes, CANARY);
 #endif
@@ -1204,6 +1208,7 @@ ssize_t simw_read(int fd, void *buf, size_t n) { SHIM;
 ssize_t simw_write(int fd, const void *buf, size_t n) { SHIM;
   State &s = *S;
   point(OP_WRITE, fd);
+  if (RUNNING_ON_VALGRIND && n) (void)VALGRIND_CHECK_MEM_IS_DEFINED(buf, n);    // as the real write(2) would be checked: output must not contain uninitialised bytes
   if (fd < 0 || (size_t)fd >= s.fds.size() || !s.fds[fd].open || !s.fds[fd].wr) { errno = EBADF; return -1; }
   FdEnt &e = s.fds[fd];
   Fiber &me = s.F[s.cur];
